@@ -1,10 +1,12 @@
 package cafs
 
 import (
+	"bytes"
 	"context"
 	"errors"
 	"fmt"
 	"io"
+	"io/ioutil"
 	"runtime"
 	"strings"
 	"sync"
@@ -239,7 +241,7 @@ func (r *chunkReader) WriteTo(writer io.Writer) (n int64, err error) {
 		wg.Add(1)
 		i := int64(index) * int64(r.leafSize-r.truncation)
 		concurrencyControl <- struct{}{}
-		go func(writeAt int64, writer io.WriterAt, key Key, cafs storage.Store, wg *sync.WaitGroup) {
+		go func(writeAt int64, writer io.WriterAt, key Key, cafs storage.Store, wg *sync.WaitGroup, index int) {
 			defer func() {
 				<-concurrencyControl
 				wg.Done()
@@ -253,14 +255,32 @@ func (r *chunkReader) WriteTo(writer io.Writer) (n int64, err error) {
 				w:      writer,
 				offset: writeAt,
 			}
+			var src io.Reader = rdr
+			if r.withVerifyHash {
+				// verify the leaf before any of its bytes reach the destination (same checksumming scheme as ReadAt)
+				data, e := ioutil.ReadAll(rdr)
+				if e != nil {
+					errC <- e
+					return
+				}
+				nodeOffset, isLast := index+1, false
+				if index+1 == len(r.keys) && uint32(len(data)) != r.leafSize {
+					nodeOffset, isLast = index, true
+				}
+				if e = r.verifyHash(key, data, nodeOffset, isLast); e != nil {
+					errC <- e
+					return
+				}
+				src = bytes.NewReader(data)
+			}
 			// TODO(fred): nice - io.CopyBuffer is probably better to get the copy working buffer aligned to leaf buffers
-			written, err := io.Copy(w, rdr) // io.WriteAt is expected to be thread safe.
+			written, err := io.Copy(w, src) // io.WriteAt is expected to be thread safe.
 			if err != nil {
 				errC <- err
 				return
 			}
 			writtenC <- written
-		}(i, w, key, r.fs, &wg)
+		}(i, w, key, r.fs, &wg, index)
 	}
 	var count int
 	var written int64
